@@ -60,7 +60,10 @@ def slOp (sl : SL) (toks : List String) : SL × String :=
   | ["dump"] => (sl, "ok ; " ++ slDump sl)
   | ["insert", m, s] =>
     (match parseArg m, hexToU64 s with
-     | some m, some s => slMut sl ((insert sl m s lvl).map fun sl' => (sl', "ok"))
+     | some m, some s =>
+       -- the oracle for the random level must be a height `randomLevel()` can return (the theorems assume 1..16)
+       if lvl < 1 ∨ lvl > maxLevel then (sl, s!"LEVEL-OUT-OF-RANGE {lvl}") else
+       slMut sl ((insert sl m s lvl).map fun sl' => (sl', "ok"))
      | _, _ => (sl, "bad-op"))
   | ["remove", m, s] =>
     (match parseArg m, hexToU64 s with
@@ -113,7 +116,8 @@ def slzOp (p : PZSet) (toks : List String) : PZSet × String :=
   | ["dump"] => (p, "ok ; " ++ slDump p.sl)
   | ["ZAdd", m, s] =>
     (match parseArg m, hexToU64 s with
-     | some m, some s => slzMut p (pzAdd p m s lvl)
+     | some m, some s =>
+       if lvl < 1 ∨ lvl > maxLevel then (p, s!"LEVEL-OUT-OF-RANGE {lvl}") else slzMut p (pzAdd p m s lvl)
      | _, _ => (p, "bad-op"))
   | "ZRem" :: ms =>
     (match ms.mapM parseArg with
